@@ -66,11 +66,15 @@ deriving DecidableEq, Repr, Inhabited
 inductive Out | norm | ret | brk | cont | pnc
 deriving DecidableEq, Repr, Inhabited
 
-/-- Events of a trace. -/
+/-- Events of a trace. `pacq p l` / `prel p l`: lock `l` is acquired / released through
+`LockPile` `p` (the held multiset changes like for `acq l` / `rel l`; the pile is recorded
+because `LockPile.Lock` does not block while holding other locks of the same pile). -/
 inductive Ev where
   | acq (l : Nat)
   | rel (l : Nat)
   | need (cs : List Nat)
+  | pacq (p l : Nat)
+  | prel (p l : Nat)
 deriving DecidableEq, Repr, Inhabited
 
 /-! ## Lock identifiers carry their guard class
@@ -139,6 +143,8 @@ def rnEv (ren : List (Nat × Nat)) : Ev → Ev
   | .acq l => .acq (rn ren l)
   | .rel l => .rel (rn ren l)
   | .need cs => .need cs
+  | .pacq p l => .pacq p (rn ren l)
+  | .prel p l => .prel p (rn ren l)
 
 /-! ## Path semantics -/
 
@@ -172,15 +178,15 @@ def sem (C : Nat → List Ev → Prop) : Stmt → CS → List Ev → Out → CS 
   | .acq l, c, tr, o, c' => tr = [.acq l] ∧ o = .norm ∧ c' = c
   | .rel l, c, tr, o, c' => tr = [.rel l] ∧ o = .norm ∧ c' = c
   | .pileLock p l, c, tr, o, c' =>
-      tr = [.acq l] ∧ o = .norm ∧ c' = { c with piles := setP c.piles p (insertS l (getP c.piles p)) }
+      tr = [.pacq p l] ∧ o = .norm ∧ c' = { c with piles := setP c.piles p (insertS l (getP c.piles p)) }
   | .pileUnlock p l, c, tr, o, c' =>
       if (getP c.piles p).contains l then
-        tr = [.rel l] ∧ o = .norm ∧ c' = { c with piles := setP c.piles p ((getP c.piles p).erase l) }
+        tr = [.prel p l] ∧ o = .norm ∧ c' = { c with piles := setP c.piles p ((getP c.piles p).erase l) }
       else
         -- `LockPile.Unlock` of a lock that is not in the pile indexes out of range
         tr = [] ∧ o = .pnc ∧ c' = c
   | .pileUnlockAll p, c, tr, o, c' =>
-      tr = (getP c.piles p).map Ev.rel ∧ o = .norm ∧ c' = { c with piles := setP c.piles p [] }
+      tr = (getP c.piles p).map (Ev.prel p) ∧ o = .norm ∧ c' = { c with piles := setP c.piles p [] }
   | .call g ren, c, tr, o, c' => ∃ t, C g t ∧ tr = t.map (rnEv ren) ∧ o = .norm ∧ c' = c
   | .seq a b, c, tr, o, c' =>
       (∃ c1 t1 t2, sem C a c t1 .norm c1 ∧ sem C b c1 t2 o c' ∧ tr = t1 ++ t2)
@@ -224,6 +230,8 @@ def stepH (h : List Nat) : Ev → Option (List Nat)
   | .acq l => some (l :: h)
   | .rel l => if h.contains l then some (h.erase l) else none
   | .need cs => if holdsClass h cs then some h else none
+  | .pacq _ l => some (l :: h)
+  | .prel _ l => if h.contains l then some (h.erase l) else none
 
 /-- `run h tr = some h'`: starting with the multiset `h` held, the trace never
 releases a lock that is not held, every `need cs` event (a mutation of state guarded by
